@@ -321,10 +321,11 @@ func (c *cubicSender) SetMaxDatagramSize(s protocol.ByteCount) {
 	if s < c.maxDatagramSize {
 		panic(fmt.Sprintf("congestion BUG: decreased max datagram size from %d to %d", c.maxDatagramSize, s))
 	}
-	cwndIsMinCwnd := c.congestionWindow == c.minCongestionWindow()
 	c.maxDatagramSize = s
-	if cwndIsMinCwnd {
-		c.congestionWindow = c.minCongestionWindow()
+	// The minimum congestion window is defined in packets: make sure the window is not below it
+	// for the new packet size (it might be just above the old minimum after a loss).
+	if minCwnd := c.minCongestionWindow(); c.congestionWindow < minCwnd {
+		c.congestionWindow = minCwnd
 	}
 	c.pacer.SetMaxDatagramSize(s)
 }
